@@ -126,3 +126,34 @@ func (SnapshotOracle) AfterStep(m *VM, rec *Rec) {
 	}
 }
 func (SnapshotOracle) AtEnd(m *VM) {}
+
+// HostileProbe counts how far hostile tokens get (C10 reach probes).
+type HostileProbe struct{}
+
+func (HostileProbe) AfterStep(m *VM, rec *Rec) {
+	op := &m.Plan.Ops[rec.I]
+	switch rec.K {
+	case "unm":
+		if b := m.Blob(op.A); b != nil && (b.Hostile || b.Mutated) {
+			if rec.Err == "" {
+				m.Probe("hostile_unmarshal_ok")
+			} else {
+				m.Probe("hostile_unmarshal_rejected")
+			}
+		}
+	case "verify":
+		if t := m.Tok(op.A); t != nil && t.Hostile && rec.V != nil {
+			if rec.V.Class != "" {
+				m.Probe("hostile_authorize_reached")
+				m.Probe("hostile_verdict_" + rec.V.Class)
+			} else {
+				m.Probe("hostile_rejected_at_verification")
+			}
+		}
+	case "attenuate", "seal", "ser", "print", "blockid":
+		if t := m.Tok(op.A); t != nil && t.Hostile {
+			m.Probe("hostile_" + rec.K)
+		}
+	}
+}
+func (HostileProbe) AtEnd(m *VM) {}
